@@ -41,6 +41,14 @@ std::string shaderObs(NifFile& nif, NiShape* s) {
 	return o;
 }
 
+// what a pointer designates: the block type, and for nodes (bones, skeleton roots — found again by name in the destination)
+// the name as well
+std::string nodeLabel(NiObject* t) {
+	if (auto n = dynamic_cast<NiNode*>(t))
+		return std::string(t->GetBlockName()) + ":" + hexEncode(n->name.get());
+	return t->GetBlockName();
+}
+
 // parallel walk of the block trees below two shapes: same types, same number of references, every reference resolves
 // returns "" or the first discrepancy
 std::string walkPair(NifFile& S, NiObject* a, NifFile& D, NiObject* b, int depth, std::set<NiObject*>& seen) {
@@ -85,13 +93,21 @@ std::string walkPair(NifFile& S, NiObject* a, NifFile& D, NiObject* b, int depth
 		auto rb = D.GetRootNode();
 		ta.clear();
 		tb.clear();
+		// cloning into another model re-binds the skeleton root of the skin to that model's root node
+		NiPtr* skelRoot = nullptr;
+		if (&S != &D) {
+			if (auto si = dynamic_cast<NiSkinInstance*>(a))
+				skelRoot = &si->targetRef;
+			else if (auto bi = dynamic_cast<BSSkinInstance*>(a))
+				skelRoot = &bi->targetRef;
+		}
 		for (auto p : pa) {
 			auto t = S.GetHeader().GetBlock<NiObject>(p->index);
-			ta.push_back(p->index == NIF_NPOS ? "empty" : (t ? (t == ra ? "root" : t->GetBlockName()) : "dangling"));
+			ta.push_back(p->index == NIF_NPOS ? "empty" : (t ? (t == ra || (p == skelRoot && rb) ? "root" : nodeLabel(t)) : "dangling"));
 		}
 		for (auto p : pb) {
 			auto t = D.GetHeader().GetBlock<NiObject>(p->index);
-			tb.push_back(p->index == NIF_NPOS ? "empty" : (t ? (t == rb ? "root" : t->GetBlockName()) : "dangling"));
+			tb.push_back(p->index == NIF_NPOS ? "empty" : (t ? (t == rb ? "root" : nodeLabel(t)) : "dangling"));
 		}
 	}
 	std::sort(ta.begin(), ta.end());
@@ -118,6 +134,17 @@ bool buildSource(NifFile& nif, const std::string& src) {
 		if (f.size() > 6 && std::stoi(f[6]) > 0) {
 			skinMesh(nif, s, std::stoi(f[6]), std::stoull(f[4]) + 1, 4);
 			nif.UpdateSkinPartitions(s);
+			// every third seed: the skeleton root is a dedicated node below the scene root, not the scene root itself
+			if (std::stoull(f[4]) % 3 == 0) {
+				MatTransform t;
+				auto sk = nif.AddNode("SkelRoot", t, nif.GetRootNode());
+				uint32_t id = nif.GetBlockID(sk);
+				auto inst = nif.GetHeader().GetBlock<NiObject>(s->SkinInstanceRef());
+				if (auto si = dynamic_cast<NiSkinInstance*>(inst))
+					si->targetRef.index = id;
+				else if (auto bi = dynamic_cast<BSSkinInstance*>(inst))
+					bi->targetRef.index = id;
+			}
 		}
 		return true;
 	}
